@@ -7,6 +7,13 @@ use crate::report::{run_cases, Ctx, Report, Violation};
 use crate::rng::Rng;
 use serde_json::json;
 
+/// signatures of the `known` entries of known_findings.json
+pub fn known_signatures() -> std::sync::Arc<std::collections::HashSet<String>> {
+    let root = std::env::var("VERIF_ROOT").unwrap_or_else(|_| "/verif".to_string());
+    let fs = crate::findings::load(&format!("{}/known_findings.json", root));
+    std::sync::Arc::new(fs.into_iter().filter(|f| f.status == "known").map(|f| f.signature).collect())
+}
+
 pub struct Spec {
     pub prop: &'static str,
     pub focus: &'static [Focus],
@@ -19,12 +26,14 @@ pub struct Spec {
 
 pub fn run_spec(ctx: &Ctx, sp: &Spec) -> Report {
     let n = ctx.budget(sp.quick, sp.thorough);
+    let known = known_signatures();
     let mut total = run_cases(ctx, 1, n, sp.rule_text, |i, seed, rep| {
         let mut r = Rng::new(seed ^ 0xA11CE);
         let focus = sp.focus[(i as usize) % sp.focus.len()];
         let sc = random_scenario(&mut r, focus, sp.hostile_pct);
         let scj = scenario_json(&sc);
-        let d = Driver::new(sc, seed);
+        let mut d = Driver::new(sc, seed);
+        d.known = known.clone();
         let out = d.run();
         rep.evaluations += 1;
         rep.api_calls += out.api_calls;
@@ -44,7 +53,7 @@ pub fn run_spec(ctx: &Ctx, sp: &Spec) -> Report {
         if i % 997 == 3 {
             rep.sample(json!({"scenario": scj, "history": trace_json(&out.trace)}), 4);
         }
-        for f in out.found.iter() {
+        for f in out.found.iter().chain(out.known_seen.iter()) {
             if f.property == sp.prop || std::env::var("VERIF_ALLPROPS").is_ok() {
                 rep.violate(Violation {
                     property: f.property.to_string(),
